@@ -123,6 +123,9 @@ func (in *Interp) getValue(r Ref) Value {
 		if b.object != nil {
 			return in.get(b.object, r.name)
 		}
+		if b.vars[r.name] == nil {
+			panic(Discard{"read through a reference to a deleted binding"})
+		}
 		return b.vars[r.name].value
 	case *Obj:
 		return in.get(b, r.name)
@@ -142,6 +145,11 @@ func (in *Interp) putValue(r Ref, v Value) {
 			return
 		}
 		bd := b.vars[r.name]
+		if bd == nil {
+			// the binding was deleted (eval-declared) between resolving the reference and the assignment:
+			// ES5 10.2.1.1.3 only asserts that it exists
+			panic(Discard{"assignment through a reference to a deleted binding"})
+		}
 		if bd.mutable {
 			bd.value = v
 		} // immutable binding (named function expression): silently ignored in non-strict code
